@@ -25,7 +25,7 @@ META["text"] = (
     "tendonpos/vel, actuatorpos/vel/frc, jointactuatorfrc, tendonactuatorfrc, ballquat, ballangvel, joint/tendon limit pos/vel/frc, framepos/quat/x,y,z-axis/linvel/angvel with and without reference frames for body/xbody/geom/site/camera objects, framelinacc/angacc, "
     "subtreecom/linvel/angmom, insidesite, distance/normal/fromto between spheres, potential/kinetic energy, clock, user sensors of every datatype and stage) the documented quantity is recomputed in the driver from the simulation state with independent formulas "
     "(velocities and accelerations from mj_jac / mj_jacDot and qvel/qacc instead of cvel/cacc/mj_objectVelocity/mj_objectAcceleration; quaternions from rotation matrices; subtree quantities and kinetic energy by explicit sums over bodies) and compared after applying the documented cutoff rule (1e-9 scaled); "
-    "framelinvel and frameangvel are also compared with centred finite differences of framepos / framequat along the motion (same object and reference); canaries check that mj_forward writes every entry of sensordata, that each stage alone writes exactly the slices of its own sensors, "
+    "framelinvel and frameangvel are also compared with centred finite differences of framepos / framequat along the motion (same object and reference); touch is recomputed with an own inside test and an own half-line / solid test (box, ellipsoid, cylinder, sphere, capsule; no mju_rayGeom): normal forces of the contacts of the zone's body whose point is inside the zone or whose normal ray LEAVING that body meets it, on generated models and on dedicated scenes (plane, box on it, box on the box) with thin zones in front of and behind the contact points on contact body 1 and contact body 2, world included; canaries check that mj_forward writes every entry of sensordata, that each stage alone writes exactly the slices of its own sensors, "
     "and that mj_computeSensor stays inside its slice. Not covered at all: contact, tactile, plugin and camera-rangefinder sensors, history/delay/interval reads, sleeping; force/torque are recomputed from cfrc_int (not from first principles); limit/actuator forces are copies of efc_force/actuator_force. "
     "Tie: the layout model is compared exactly with sensor_adr/sensor_dim/nsensordata of every compiled model; the cutoff model is run at binary64 inside Coq against the static apply_cutoff on every (sensor type, datatype) pair with boundary/NaN/inf data; the reference-frame kernels are run at binary64 on the inputs the sensors saw.")
 META["note"] = ("Trusted: Coq kernel + the standard-library real-number axioms listed in trusted_base (C28_slices and C28_stage_writes_own_slice are closed under the global context); hand-written model Model/Sensor.v; "
@@ -112,7 +112,7 @@ def parse_model_block(lines):
             v = list(map(int, t[3:]))
             res["layout"] = (ns, nsd, v[:ns], v[ns:2 * ns])
         elif t[0] == "REP":
-            cur = {"rep": int(t[1]), "bad": int(t[2]), "nstep": int(t[3]), "ncon": int(t[4]), "S": [], "CAN": None, "FD": [], "FDQ": [], "FK": []}
+            cur = {"rep": int(t[1]), "bad": int(t[2]), "nstep": int(t[3]), "ncon": int(t[4]), "S": [], "CAN": None, "TCH": None, "FD": [], "FDQ": [], "FK": []}
             res["reps"].append(cur)
         elif t[0] == "S":
             head, obs, exp = l.split("|")
@@ -122,6 +122,8 @@ def parse_model_block(lines):
                              "kind": h[12], "scl": unhx(h[13]), "dofless": int(h[14]), "obs": [unhx(x) for x in obs.split()], "exp": [unhx(x) for x in exp.split()]})
         elif t[0] == "CAN":
             cur["CAN"] = list(map(int, t[1:]))
+        elif t[0] == "TCH":
+            cur["TCH"] = list(map(int, t[1:]))
         elif t[0] in ("FD", "FDQ"):
             cur[t[0]].append((int(t[1]), [unhx(x) for x in t[2:5]]))
         elif t[0] in ("FKP", "FKA", "FKQ", "FKV"):
@@ -185,8 +187,12 @@ def run(ctx):
     mcases.sort(key=lambda c: c[2])
     # fixed corpus (both tiers): the replay of known finding C28-F1 (IMU sensors on a static body) first
     mcases.insert(0, (90335, 65540, 1, 4))
+    # touch scenes (feat = -1): thin zones in front of / behind the contact points on contact body 1 (world, lower box) and
+    # contact body 2 (lower box, upper box): the documented re-projection clause of the touch sensor
+    wcases = [(1, -1, 2, 4), (2, -1, 2, 4)] + [(rng.randrange(3, 10 ** 6), -1, 2, 3) for _ in range(3 if quick else 40)]
+    mcases[1:1] = wcases
     for (seed, feat, nbody, nrep) in mcases:
-        reqs.append("M %d %d %d %d" % (seed, feat, nbody, nrep))
+        reqs.append(("W %d %d" % (seed, nrep)) if feat == -1 else ("M %d %d %d %d" % (seed, feat, nbody, nrep)))
     rc, out, err = ctx.run(exe, "\n".join(reqs) + "\n", timeout=900)
     blocks = split_blocks(out)
     if rc != 0 or len(blocks) != len(reqs):
@@ -247,7 +253,8 @@ def run(ctx):
     coq_l, l_cases = [], []
     coq_f, f_cases = [], []
     stats = {"sensor_readings": 0, "oracle_formula": 0, "oracle_copy": 0, "no_oracle": 0, "cutoff_active": 0, "nonzero": 0, "bad_reps": 0, "reps": 0,
-             "fd_linvel": 0, "fd_angvel": 0, "with_ref": 0, "models": 0, "compile_fail": 0, "touch_nonzero": 0, "limit_active": 0}
+             "fd_linvel": 0, "fd_angvel": 0, "with_ref": 0, "models": 0, "compile_fail": 0, "touch_nonzero": 0, "limit_active": 0,
+             "touch_contacts_inside_zone": 0, "touch_contacts_by_outward_ray": 0, "touch_contacts_only_a_backward_ray_would_hit": 0, "touch_scenes": 0}
     types_seen, types_nontrivial = {}, {}
     distinct = set()
     samples = []
@@ -258,6 +265,9 @@ def run(ctx):
             stats["compile_fail"] += 1
             continue
         stats["models"] += 1
+        if feat == -1:
+            stats["touch_scenes"] += 1
+            mcase = {"scene": "touch (driver request W seed nrep)", "seed": seed}
         ns, nsd, dims, adrs = mb["layout"]
         # layout oracle on implementation output (independent of the Coq model): disjoint, covering, in order
         cover = [0] * max(nsd, 0)
@@ -328,6 +338,10 @@ def run(ctx):
                                   note="oracle kind %s; pre-cutoff expected %s" % (s["kind"], [hx(x) for x in s["exp"]]))
                 if len(samples) < 4 and nz and s["refid"] >= 0:
                     samples.append(dict(scase, observed=s["obs"], expected=expv))
+            if rp.get("TCH"):
+                stats["touch_contacts_inside_zone"] += rp["TCH"][0]
+                stats["touch_contacts_by_outward_ray"] += rp["TCH"][1]
+                stats["touch_contacts_only_a_backward_ray_would_hit"] += rp["TCH"][2]
             # canaries
             cn = rp["CAN"]
             if cn is None:
@@ -414,5 +428,7 @@ def run(ctx):
     ctx.cov["explanation"] = ("layout and stage theorems proved for all sensor lists; cutoff and reference-frame kernels proved over R; layout tied exactly on %d compiled models, "
                               "cutoff kernel on %d cases, reference-frame kernels on %d sensor evaluations; %d sensor readings compared with the recomputed documented quantity (%d with an active cutoff)"
                               % (len(coq_l), len(coq_k), len(coq_f), stats["oracle_formula"] + stats["oracle_copy"], stats["cutoff_active"]))
+    if stats["touch_contacts_by_outward_ray"] == 0 or stats["touch_contacts_only_a_backward_ray_would_hit"] == 0:
+        ctx.broken.append(("correspondence", "the touch scenes produced no re-projection case", str(stats)))
     if stats["models"] == 0 or stats["sensor_readings"] == 0:
         ctx.broken.append(("correspondence", "no model could be built / no sensor was evaluated", str(stats)))
